@@ -1003,8 +1003,9 @@ def register(E):
             E.store(Ptr(p.obj, p.path + (fidx['index'],)), idx)
             E.store(Ptr(p.obj, p.path + (fidx['isExtension'],)), e)
             ft.append(t)
-            ix.append(idx)
-            ex.append(e)
+            # concrete re-execution (confirmation of a counterexample) supplies plain values
+            ix.append(BV(idx, 64) if type(idx) is int else idx)
+            ex.append(z3.BoolVal(e) if type(e) is bool else e)
         for a in range(3):
             for b in range(a + 1, 3):
                 E.assume(ix[a] != ix[b])
@@ -1275,6 +1276,30 @@ def register(E):
             r = ClockTime((z3.URem(ns, BV(1000000000, 64)), BV(REF_SEC0, 64) + z3.UDiv(ns, BV(1000000000, 64)), None))
         r.ns = ns
         return r
+
+    def time_date(E, args):
+        """time.Date for concrete arguments in normal ranges: the Time it returns for the UTC location (loc stored as
+        nil, as Time.setLoc does); for any other location the wall-clock fields are taken as given and the location
+        pointer is kept, so such a Time is never equal to a UTC one (no time-zone data in the model)"""
+        import calendar
+        vals = []
+        for a in args[:7]:
+            if type(a) is not int:
+                raise Unsupported('time.Date with symbolic arguments')
+            vals.append(a if a < (1 << 63) else a - (1 << 64))
+        y, mo, d, h, mi, sec, ns = vals
+        if not (1 <= mo <= 12 and 1 <= d <= 31 and 0 <= h < 24 and 0 <= mi < 60 and 0 <= sec < 60 and 0 <= ns < 1000000000 and 1 <= y <= 9999):
+            raise Unsupported('time.Date outside normal ranges')
+        unix = calendar.timegm((y, mo, d, h, mi, sec))
+        loc = args[7]
+        utc = E.globals.get('time.utcLoc')
+        if loc is None:
+            # time.UTC / time.Local are nil when package time is not initialised in this check: unknown, as before
+            raise Unsupported('time.Date: nil location (package time is not initialised in this check)')
+        if utc is not None and type(loc) is Ptr and loc.obj is utc and loc.path == ():
+            loc = None
+        return (ns, (unix + 62135596800) & ((1 << 64) - 1), loc)
+    I['time.Date'] = time_date
 
     def time_now(E, args):
         """time.Now(): wall clock with arbitrary non-decreasing unix nanoseconds; Time{wall: 0, ext: sec since year 1, loc: Local}"""
